@@ -165,6 +165,8 @@ def run(ctx, report: Report) -> None:
     r7 = report.rule('C05-R7', 'union / complement / intersection laws on reference trees (whole pipeline; bounded)', floor=2)
     from .e2ematch import boolean_algebra_table
     boolean_algebra_table(ctx, r7, deep=(ctx.tier == 'thorough'))
+    from .e2ematch import long_list_table
+    long_list_table(ctx, r7, deep=(ctx.tier == 'thorough'))
 
     # the logical pseudo-classes under every spelling of their names (a spelling that loses the negation / forgiving / relative
     # flag turns :not() into :is())
